@@ -38,7 +38,8 @@ Za == V("v_a")
 Ctx == { Bin("add", Za, U("m")), Bin("mul", Za, U("s")), Bin("conv", Za, U("cm")), Bin("pow", Za, Two),
          Bin("lt", Za, U("s")), CallF("f_len", <<Za>>), CallF("f_sq", <<Za>>), CallF("f_inf", <<Za>>), CallF("f_sqrt", <<Za>>),
          HeadOf(List2(Za, U("m"))), Fld(Mk(Za, U("s")), "a"), If(Bin("lt", Za, U("m")), Za, U("km")),
-         Bin("div", Za, Za), Bin("pow", Za, Bin("div", One, Two)) }
+         Bin("div", Za, Za), Bin("pow", Za, Bin("div", One, Two)), Bin("add", Za, U("kg")), Bin("add", Za, Bin("div", U("m"), U("s"))),
+         List2(Za, U("kg")), CallF("f_sum", <<Za, U("s")>>) }
 
 NoExpr == E("none", << >>, "", <<0, 1>>, "")
 Seeds == { [cls |-> c, l |-> x] : c \in {"d1", "d2l", "d2r", "call", "agg", "two", "if"}, x \in Leaves }
@@ -49,7 +50,7 @@ Completions(s) ==
     [] s.cls = "d2l" -> { [e1 |-> Bin(op, d, s.l), e2 |-> NoExpr] : op \in BinOps, d \in D1Small }
     [] s.cls = "d2r" -> { [e1 |-> Bin(op, s.l, d), e2 |-> NoExpr] : op \in BinOps, d \in D1Small }
     [] s.cls = "call" -> { [e1 |-> CallF(f, <<s.l>>), e2 |-> NoExpr] : f \in {"f_len", "f_sq", "f_inf", "f_where", "f_sqrt"} }
-                         \cup { [e1 |-> CallF("f_sum", <<s.l, y>>), e2 |-> NoExpr] : y \in Leaves }
+                         \cup { [e1 |-> CallF(f, <<s.l, y>>), e2 |-> NoExpr] : y \in Leaves, f \in {"f_sum", "f_quot", "f_mix"} }
                          \cup { [e1 |-> CallF(f, <<d>>), e2 |-> NoExpr] : f \in {"f_len", "f_sq", "f_inf", "f_sqrt"},
                                                                        d \in { Bin(op, s.l, y) : op \in {"mul", "div"}, y \in LeavesSmall } }
     [] s.cls = "agg" -> { [e1 |-> HeadOf(List2(s.l, y)), e2 |-> NoExpr] : y \in Leaves }
@@ -58,7 +59,8 @@ Completions(s) ==
     [] s.cls = "if" -> { [e1 |-> If(Bin("lt", s.l, y), z, w), e2 |-> NoExpr] : y \in LeavesSmall, z \in LeavesSmall, w \in Leaves }
                        \cup { [e1 |-> If(s.l, Two, Two), e2 |-> NoExpr] }
     [] s.cls = "two" -> { [e1 |-> d, e2 |-> c] : d \in { Bin(op, s.l, y) : op \in {"add", "mul", "div"}, y \in LeavesSmall }
-                                                    \cup { s.l, Bin("pow", s.l, Two), Bin("pow", s.l, Bin("div", One, Two)), Bin("pow", s.l, Zero) },
+                                                    \cup { s.l, Bin("pow", s.l, Two), Bin("pow", s.l, Bin("div", One, Two)), Bin("pow", s.l, Zero) }
+                                                    \cup { CallF(f, <<s.l, y>>) : f \in {"f_quot", "f_mix"}, y \in {U("s"), U("m"), Two} },
                                                c \in Ctx }
 
 Init == stage = 0 /\ seed = [cls |-> "", l |-> NoExpr] /\ cs = [e1 |-> NoExpr, e2 |-> NoExpr]
@@ -74,9 +76,10 @@ T1 == TypeOf(EmptyEnv, cs.e1)
 Env2 == [x \in {"v_a"} |-> T1]
 T2 == IF cs.e2.op = "none" THEN Poly ELSE IF IsErr(T1) THEN T1 ELSE TypeOf(Env2, cs.e2)
 
-ASSUME PrintT(<<"META", ToJson([setup |-> [i \in 1..7 |->
+ASSUME PrintT(<<"META", ToJson([setup |-> [i \in 1..9 |->
             CASE i = 1 -> StructText [] i = 2 -> FnDef("f_len").text [] i = 3 -> FnDef("f_sq").text [] i = 4 -> FnDef("f_sum").text
-              [] i = 5 -> FnDef("f_inf").text [] i = 6 -> FnDef("f_where").text [] i = 7 -> FnDef("f_sqrt").text]])>>)
+              [] i = 5 -> FnDef("f_inf").text [] i = 6 -> FnDef("f_where").text [] i = 7 -> FnDef("f_sqrt").text
+              [] i = 8 -> FnDef("f_quot").text [] i = 9 -> FnDef("f_mix").text]])>>)
 
 \* MC sanity of the rule set itself: typing is total and well-formed
 TypeTotal == stage = 2 => T1.k \in {"dim", "poly", "bool", "list", "polylist", "struct", "err"}
